@@ -214,7 +214,7 @@ def plan_c07():
 
 
 PLANS = {}
-PLANS["XSB"] = {"level": "exploration", "jobs": lambda tier, seed: miri_sb_jobs("XSB", tier), "rule": "dev", "evidence": lambda m, r: {"distinct_nontrivial": m["counters"].get("distinct_nontrivial", 0)}, "assumptions": [], "min_evaluations": {"quick": 1, "thorough": 1}, "text": "dev"}
+PLANS["XSB"] = {"level": "exploration", "jobs": lambda tier, seed: life_jobs("XSB", tier)[-2:], "rule": "dev", "evidence": lambda m, r: {"distinct_nontrivial": m["counters"].get("distinct_nontrivial", 0)}, "assumptions": [], "min_evaluations": {"quick": 1, "thorough": 1}, "text": "dev"}
 PLANS["C01"] = plan_core("C01", "c01", "ledger + sanitizers over scheduled executions", memcheck=True,
                          extra_jobs=lambda tier, seed: miri_race_jobs("C01", tier, [("a", "tp"), ("b", "tp"), ("c", "arc"), ("e", "arc")], 6, 256) + miri_min_jobs("C01", tier)
                          + [{"name": "C01.miri.reent", "flavour": "miri", "args": ["reent"], "miri_seeds": T(tier, 2, 16), "timeout": 900},
@@ -236,7 +236,7 @@ def dual_jobs(tier):
             {"name": "C12.dual.quarantine", "flavour": "native", "args": ["dual", "alloc=quarantine", "execs=%d" % T(tier, 1500, 60000)], "shards": 4, "threads": 3, "timeout": 2400}]
 
 
-PLANS["C12"] = plan_core("C12", "c12", "per-container histories", asan=False, extra_jobs=lambda tier, seed: [miri_core_job("C12", "c12", tier, 4, 96)] + dual_jobs(tier), required=WINDOW_PATHS + ["write.help_other_storage"])
+PLANS["C12"] = plan_core("C12", "c12", "per-container histories", asan=False, extra_jobs=lambda tier, seed: [miri_core_job("C12", "c12", tier, 4, 96), life_job("C12.life.token", "token", execs=T(tier, 400, 20000), profile="c12")] + dual_jobs(tier), required=WINDOW_PATHS + ["write.help_other_storage"])
 PLANS["C07"] = plan_c07()
 
 
@@ -251,7 +251,9 @@ LIFE_RULE = ("One evaluation = one seeded execution: either of the core workload
              "the crate's own thread-local is gone), one long-lived writer walking all nodes, one long-lived keeper holding handed-over guards "
              "across their creators' exits, a director spawning the rounds; TOKEN-scheduled (thread start, exit and thread-local destructors run "
              "under the token) or free-running. Non-trivial = a load overlapped a write of another thread; distinct = distinct schedule-trace / "
-             "history hash; distinct_nontrivial = size of the union over shards.")
+             "history hash; distinct_nontrivial = size of the union over shards. The `miri.reuse` jobs run, per Miri seed, 8 rounds of a node hand-over in which the "
+             "exiting thread (leaving a guard's debt in its node) and the adopting thread are ordered by nothing but the crate itself; the value's count is checked "
+             "around the drop of the guard that outlived its thread.")
 
 
 def life_jobs(pid, tier):
@@ -262,6 +264,9 @@ def life_jobs(pid, tier):
         life_job(pid + ".life.free.asan", "free", secs=T(tier, 5, 60), flavour="asan", alloc="real", shards=2),
         life_job(pid + ".life.free.asan.arc", "free", secs=T(tier, 4, 60), flavour="asan", alloc="real", shards=2, val="arc"),
         {"name": pid + ".life.miri", "flavour": "miri", "args": ["life", "profile=c10", "mode=free", "alloc=real", "execs=1"], "miri_seeds": T(tier, 4, 96), "timeout": 1800},
+        # node hand-over with nothing but the crate's own synchronisation between the exiting and the adopting thread (wl_race::node_reuse)
+        {"name": pid + ".miri.reuse.arc", "flavour": "miri", "args": ["race", "shape=reuse", "nohooks", "val=arc", "rounds=8"], "miri_seeds": T(tier, 12, 192), "timeout": 900},
+        {"name": pid + ".miri.reuse.tp", "flavour": "miri", "args": ["race", "shape=reuse", "nohooks", "val=tp", "rounds=8"], "miri_seeds": T(tier, 6, 96), "timeout": 900},
     ]
 
 
